@@ -1,3 +1,885 @@
+// C04 correspondence: RevertHead exactly undoes a block; forks converge. Per state backend a node NA
+// stores a common prefix P, a fork A, reverts A block by block and stores a fork B; a node NB stores P
+// and B only. Both are followers (SanityCheckNewHeight+Store) fed by sequencer nodes. NA and NB must
+// be indistinguishable: every blockchain.Reader query, the state readers (by number, by hash, head),
+// the event filter, and the raw database bucket by bucket. NA's op sequence also runs through the
+// extracted model C04.Model (store_node / revert_node): op outcomes (incl. the legacy guard
+// no_noop_zero_write) and the decoded content of every index family are compared.
 package main
 
-func main() {}
+import (
+	"encoding/hex"
+	"flag"
+	"fmt"
+	"os"
+	"runtime"
+	"runtime/pprof"
+	"sort"
+	"strings"
+	"sync"
+
+	"github.com/NethermindEth/juno/core"
+	"github.com/NethermindEth/juno/core/felt"
+	"github.com/NethermindEth/juno/db"
+	"verifharness/hx"
+	sh "verifharness/statehist"
+)
+
+// Spec is the replay object: a fork experiment on one backend. B empty = "store P, store A, revert A"
+// against "store P".
+type Spec struct {
+	Probe   string          `json:"probe,omitempty"` // "duplicate-tx-hash": replay of the optional probe
+	Backend string          `json:"backend"`         // new | legacy
+	P       []*sh.BlockSpec `json:"prefix"`
+	A       []*sh.BlockSpec `json:"fork_a"`
+	B       []*sh.BlockSpec `json:"fork_b"`
+}
+
+func cloneBlocks(l []*sh.BlockSpec) []*sh.BlockSpec {
+	out := make([]*sh.BlockSpec, len(l))
+	for i, b := range l {
+		c := b.Clone()
+		c.Txs = append([][]sh.Ev(nil), b.Txs...)
+		c.L1 = append([]sh.L1Msg(nil), b.L1...)
+		c.DeclareV1 = append([]sh.SierraDecl(nil), b.DeclareV1...)
+		c.Migrate = append([]sh.SierraDecl(nil), b.Migrate...)
+		out[i] = c
+	}
+	return out
+}
+
+func (s *Spec) clone() *Spec {
+	return &Spec{Backend: s.Backend, P: cloneBlocks(s.P), A: cloneBlocks(s.A), B: cloneBlocks(s.B)}
+}
+
+func blockLine(b *sh.BlockSpec) string {
+	s := b.Diff.String()
+	var x []string
+	if b.Version != "" && b.Version != "0.14.0" {
+		x = append(x, "v"+b.Version)
+	}
+	if len(b.Txs) > 0 {
+		ne := 0
+		for _, t := range b.Txs {
+			ne += len(t)
+		}
+		x = append(x, fmt.Sprintf("%dtx/%dev", len(b.Txs), ne))
+	}
+	if len(b.L1) > 0 {
+		x = append(x, fmt.Sprintf("%dl1", len(b.L1)))
+	}
+	for _, d := range b.DeclareV1 {
+		x = append(x, fmt.Sprintf("sierra#%d", d.ID))
+	}
+	for _, d := range b.Migrate {
+		x = append(x, fmt.Sprintf("migrate#%d", d.ID))
+	}
+	if b.Salt != 0 {
+		x = append(x, fmt.Sprintf("salt%d", b.Salt))
+	}
+	if len(x) > 0 {
+		s += " {" + strings.Join(x, " ") + "}"
+	}
+	return s
+}
+
+func (s *Spec) String() string {
+	part := func(l []*sh.BlockSpec) string {
+		p := make([]string, len(l))
+		for i, b := range l {
+			p[i] = blockLine(b)
+		}
+		return "[" + strings.Join(p, " ; ") + "]"
+	}
+	return fmt.Sprintf("%s backend: prefix %s fork A %s reverted, fork B %s", s.Backend, part(s.P), part(s.A), part(s.B))
+}
+
+// ---------- oracle ----------
+func opLine(b *sh.Built) string {
+	var txs, casm, migr []string
+	for _, tx := range b.Block.Transactions {
+		t := sh.Hex(tx.Hash())
+		if l1, ok := tx.(*core.L1HandlerTransaction); ok {
+			t += ":" + hexNum(l1.MessageHash())
+		}
+		txs = append(txs, t)
+	}
+	for _, d := range b.Spec.DeclareV1 {
+		casm = append(casm, sh.Hex(sh.SierraHash(d.ID))+":"+d.Casm)
+	}
+	for _, d := range b.Spec.Migrate {
+		migr = append(migr, sh.Hex(sh.SierraHash(d.ID)))
+	}
+	return "S " + b.Spec.ModelDiff().String() + " " + sh.Hex(b.Block.Hash) + " " + dash(txs) + " " + dash(casm) + " " + dash(migr)
+}
+
+func hexNum(b []byte) string {
+	s := strings.TrimLeft(hex.EncodeToString(b), "0")
+	if s == "" {
+		return "0"
+	}
+	return s
+}
+
+func dash(l []string) string {
+	if len(l) == 0 {
+		return "-"
+	}
+	return strings.Join(l, ",")
+}
+
+type reply struct {
+	bits, guard string
+	height      string
+	fam         map[string]string
+}
+
+func ask(or *hx.Oracle, backend string, ops []string) *reply {
+	b := "new"
+	if backend != "new" {
+		b = "old"
+	}
+	r := &reply{fam: map[string]string{}}
+	for _, l := range or.AskUntil("case "+b+" | "+strings.Join(ops, ";"), "end") {
+		f := strings.SplitN(l, " ", 3)
+		switch f[0] {
+		case "ops":
+			r.bits = f[1]
+		case "guard":
+			r.guard = f[1]
+		case "height":
+			r.height = f[1]
+		case "d":
+			r.fam[f[1]] = f[2]
+		default:
+			hx.Fatalf("unexpected oracle line %q", l)
+		}
+	}
+	return r
+}
+
+// ---------- one experiment ----------
+type finding struct {
+	class, what string
+	noInput     bool
+}
+
+type result struct {
+	findings    []finding
+	queries     int // facts compared NA vs NB
+	dbKeys      int // raw entries compared
+	families    int // model families compared
+	reverts     int
+	normalised  int  // legacy trie records whose zero-hash trailer was stripped before the raw comparison
+	revertKnown bool // stopped at the known legacy failure
+	stopped     string
+	detail      []string
+}
+
+func (r *result) add(class, what string, noInput bool) {
+	for _, f := range r.findings {
+		if f.class == class {
+			return
+		}
+	}
+	r.findings = append(r.findings, finding{class, what, noInput})
+}
+
+func (r *result) has(class string) bool {
+	for _, f := range r.findings {
+		if f.class == class {
+			return true
+		}
+	}
+	return false
+}
+
+func shortReason(err error) string {
+	s := err.Error()
+	switch {
+	case strings.Contains(s, "check head state"):
+		return "check-head-state"
+	case strings.Contains(s, "key not found"):
+		return "key-not-found"
+	}
+	s = strings.Map(func(r rune) rune {
+		if (r >= 'a' && r <= 'z') || (r >= '0' && r <= '9') {
+			return r
+		}
+		if r >= 'A' && r <= 'Z' {
+			return r + 32
+		}
+		return '-'
+	}, s)
+	if len(s) > 40 {
+		s = s[:40]
+	}
+	return strings.Trim(s, "-")
+}
+
+const knownClass = "legacy:revert-fails-after-noop-zero-write"
+
+func runSpec(ar *sh.Arena, or *hx.Oracle, sp *Spec, verbose bool) *result {
+	res := &result{}
+	newState := sp.Backend == "new"
+	s1, s2 := ar.NewNode(newState), ar.NewNode(newState)
+	na, nb := ar.NewNode(newState), ar.NewNode(newState)
+	defer func() { s1.Close(); s2.Close(); na.Close(); nb.Close() }()
+
+	var all []*sh.Built // every block ever built: P, A, B
+	var ops []string    // NA's op sequence for the oracle
+	var opBlock []int   // ops index of the S that stored chain position i of NA
+	reject := func(who string, i int, part string, err error) *result {
+		res.add("model-mismatch:store-outcome", fmt.Sprintf("%s backend: %s rejects block %d of %s: %v in %s", sp.Backend, who, i, part, err, sp), false)
+		res.stopped = "store rejected"
+		return res
+	}
+	// prefix: built by S1, stored by S2, NA, NB
+	for i, b := range sp.P {
+		bt, err := s1.Build(b)
+		if err != nil {
+			return reject("sequencer 1 (Finalise)", i, "the prefix", err)
+		}
+		all = append(all, bt)
+		for _, n := range []struct {
+			who string
+			n   *sh.Node
+		}{{"sequencer 2", s2}, {"node A", na}, {"node B", nb}} {
+			if err := n.n.Store(bt); err != nil {
+				return reject(n.who, i, "the prefix", err)
+			}
+		}
+		opBlock = append(opBlock, len(ops))
+		ops = append(ops, opLine(bt))
+	}
+	// fork A: built by S2 on top of the prefix, stored by NA
+	for i, b := range sp.A {
+		bt, err := s2.Build(b)
+		if err != nil {
+			return reject("sequencer 2 (Finalise)", i, "fork A", err)
+		}
+		all = append(all, bt)
+		if err := na.Store(bt); err != nil {
+			return reject("node A", i, "fork A", err)
+		}
+		opBlock = append(opBlock, len(ops))
+		ops = append(ops, opLine(bt))
+	}
+	// fork B is built now (S1 still stands at the prefix) so that its hashes are part of every query
+	var builtB []*sh.Built
+	for i, b := range sp.B {
+		bt, err := s1.Build(b)
+		if err != nil {
+			return reject("sequencer 1 (Finalise)", i, "fork B", err)
+		}
+		all = append(all, bt)
+		builtB = append(builtB, bt)
+	}
+	q := queryCtx(sp, all)
+	// the unchanged-after-a-failed-revert check reads the state at head only (the raw dump compared with
+	// it covers the history buckets); the legacy history readers copy the memory database per query
+	qLight := *q
+	qLight.HeadOnly = true
+
+	// revert fork A on NA
+	var revertErr error
+	revertedBlock := -1
+	for k := len(sp.A) - 1; k >= 0; k-- {
+		before := sh.ObserveNode(na, &qLight)
+		dumpBefore, err := sh.DumpDB(na.DB)
+		hx.Must(err)
+		pos := len(sp.P) + k
+		rerr := na.BC.RevertHead()
+		ops = append(ops, "R")
+		res.reverts++
+		if rerr == nil {
+			continue
+		}
+		revertErr, revertedBlock = rerr, pos
+		// a failed revert must leave the node as it was
+		after := sh.ObserveNode(na, &qLight)
+		dumpAfter, err := sh.DumpDB(na.DB)
+		hx.Must(err)
+		if d := sh.DiffFacts(before, after); len(d) > 0 {
+			res.add(sp.Backend+":failed-revert-changed-node", fmt.Sprintf("%s backend: RevertHead of block %d failed (%v) and %s %s changed from %s to %s; %s",
+				sp.Backend, pos, rerr, d[0].A.Family, d[0].A.Key, d[0].A.Val, d[0].B.Val, sp), false)
+		} else if d := sh.DiffDumps(dumpBefore, dumpAfter); len(d) > 0 {
+			res.add(sp.Backend+":failed-revert-changed-node", fmt.Sprintf("%s backend: RevertHead of block %d failed (%v) and the database changed: %s; %s",
+				sp.Backend, pos, rerr, d[0].String(), sp), false)
+		}
+		break
+	}
+	proceeded := revertErr == nil
+	if proceeded {
+		for i, bt := range builtB {
+			if err := na.Store(bt); err != nil {
+				return reject("node A", i, "fork B (after the reverts)", err)
+			}
+			if err := nb.Store(bt); err != nil {
+				return reject("node B", i, "fork B", err)
+			}
+			ops = append(ops, opLine(bt))
+		}
+	}
+
+	// ----- model tie -----
+	rep := ask(or, sp.Backend, ops)
+	if verbose {
+		res.detail = append(res.detail, "ops   "+strings.Join(ops, ";"), "bits  "+rep.bits, "guard "+rep.guard)
+	}
+	for i, o := range ops {
+		if i >= len(rep.bits) {
+			break
+		}
+		if o != "R" {
+			if rep.bits[i] != '1' {
+				res.add("model-mismatch:store-outcome", fmt.Sprintf("%s backend: juno stored op %d but C04.Model.valid_next rejects it: %s in %s", sp.Backend, i, o, sp), true)
+			}
+			continue
+		}
+	}
+	// outcome of the reverts: the i-th R is ops index firstR+i
+	firstR := len(sp.P) + len(sp.A)
+	for i := 0; i < res.reverts; i++ {
+		idx := firstR + i
+		pos := len(sp.P) + len(sp.A) - 1 - i // chain position of the block this R reverts
+		failed := revertErr != nil && pos == revertedBlock
+		predictedOK := idx < len(rep.bits) && rep.bits[idx] == '1'
+		switch {
+		case failed:
+			guardOK := rep.guard[opBlock[pos]] == '1'
+			if sp.Backend == "legacy" && !predictedOK && !guardOK && strings.Contains(revertErr.Error(), "check head state") {
+				res.revertKnown = true
+				res.add(knownClass, fmt.Sprintf("legacy backend: block %d writes 0 to an absent slot (guard no_noop_zero_write = 0), is stored, and RevertHead then fails: %v; %s", pos, revertErr, sp), false)
+			} else {
+				res.add(fmt.Sprintf("%s:revert-fails:%s", sp.Backend, shortReason(revertErr)),
+					fmt.Sprintf("%s backend: RevertHead of block %d fails: %v (model predicts success=%v, legacy guard=%v); %s", sp.Backend, pos, revertErr, predictedOK, guardOK, sp), false)
+			}
+		case !predictedOK:
+			res.add("model-mismatch:revert-outcome", fmt.Sprintf("%s backend: RevertHead of block %d succeeded but C04.Model predicts a failure; %s", sp.Backend, pos, sp), true)
+		}
+	}
+	nodeDiffers := false
+	if proceeded {
+		nodeDiffers = compareNodes(res, sp, na, nb, q, verbose)
+	} else {
+		res.stopped = "revert failed"
+	}
+	// decoded database of NA against the model's index families
+	fams, err := sh.ModelFamilies(na)
+	if err != nil {
+		res.add("c04:db-decoding", fmt.Sprintf("%s backend: cannot decode the database of node A: %v; %s", sp.Backend, err, sp), true)
+	} else if !res.has("model-mismatch:store-outcome") && !res.has("model-mismatch:revert-outcome") {
+		for _, name := range sh.ModelFamilyNames {
+			res.families++
+			if fams[name] != rep.fam[name] {
+				res.add(fmt.Sprintf("model-mismatch:%s:%s", sp.Backend, name),
+					fmt.Sprintf("%s backend: index family %s of node A decodes to %q, C04.Model has %q; %s", sp.Backend, name, clip(fams[name]), clip(rep.fam[name]), sp), !nodeDiffers)
+				if verbose {
+					res.detail = append(res.detail, "family "+name+"\n    juno  "+fams[name]+"\n    model "+rep.fam[name])
+				}
+			}
+		}
+	}
+	return res
+}
+
+func clip(s string) string {
+	if len(s) > 300 {
+		return s[:300] + "..."
+	}
+	return s
+}
+
+func queryCtx(sp *Spec, all []*sh.Built) *sh.QueryCtx {
+	u := sh.DefaultUniverse()
+	u.Addrs = append(u.Addrs, "1", "2")
+	q := &sh.QueryCtx{U: u, Emitters: sh.Emitters}
+	q.MaxNumber = uint64(len(sp.P) + len(sp.A))
+	if n := uint64(len(sp.P) + len(sp.B)); n > q.MaxNumber {
+		q.MaxNumber = n
+	}
+	seenH, seenT, seenM, seenC := map[string]bool{}, map[string]bool{}, map[string]bool{}, map[string]bool{}
+	for _, b := range all {
+		if h := sh.Hex(b.Block.Hash); !seenH[h] {
+			seenH[h] = true
+			q.BlockHashes = append(q.BlockHashes, b.Block.Hash)
+		}
+		if n := uint64(len(b.Block.Transactions)); n > q.MaxIndex {
+			q.MaxIndex = n
+		}
+		for _, tx := range b.Block.Transactions {
+			if h := sh.Hex(tx.Hash()); !seenT[h] {
+				seenT[h] = true
+				q.TxHashes = append(q.TxHashes, tx.Hash())
+			}
+			if l1, ok := tx.(*core.L1HandlerTransaction); ok {
+				m := l1.MessageHash()
+				if !seenM[string(m)] {
+					seenM[string(m)] = true
+					q.L1Msgs = append(q.L1Msgs, m)
+				}
+			}
+		}
+		for _, d := range b.Spec.DeclareV1 {
+			if h := sh.Hex(sh.SierraHash(d.ID)); !seenC[h] {
+				seenC[h] = true
+				u.Classes = append(u.Classes, h)
+			}
+		}
+	}
+	return q
+}
+
+// compareNodes: NA (prefix, fork A, reverts, fork B) against NB (prefix, fork B).
+func compareNodes(res *result, sp *Spec, na, nb *sh.Node, q *sh.QueryCtx, verbose bool) (differs bool) {
+	fa, fb := sh.ObserveNode(na, q), sh.ObserveNode(nb, q)
+	res.queries += len(fa)
+	diffs := sh.DiffFacts(fa, fb)
+	byNumberSlotDiffers := false
+	for _, d := range diffs {
+		byNumberSlotDiffers = byNumberSlotDiffers || d.A.Family == "state:bynumber:slot"
+	}
+	for _, d := range diffs {
+		differs = true
+		class := sp.Backend + ":" + d.A.Family
+		// the known symptom of the new backend's stale storage leaves keeps its own class (see C03)
+		if sp.Backend == "new" && d.A.Family == "state:head:slot" && !byNumberSlotDiffers && !sh.IsErrToken(d.A.Val) && !sh.IsErrToken(d.B.Val) {
+			class = "new:head:slot:zeroed-slot-reads-stale-value"
+		}
+		res.add(class, fmt.Sprintf("%s backend: %s %s answers %s on the node that stored and reverted fork A, %s on the node that never saw it; %s",
+			sp.Backend, d.A.Family, d.A.Key, d.A.Val, d.B.Val, sp), false)
+		if verbose {
+			res.detail = append(res.detail, fmt.Sprintf("api   %s %s: A=%s B=%s", d.A.Family, d.A.Key, d.A.Val, d.B.Val))
+		}
+	}
+	da, err := sh.DumpDB(na.DB)
+	hx.Must(err)
+	dbb, err := sh.DumpDB(nb.DB)
+	hx.Must(err)
+	res.dbKeys += sh.DumpSize(da) + sh.DumpSize(dbb)
+	if sp.Backend == "legacy" {
+		res.normalised += sh.NormaliseLegacyTrieNodes(da) + sh.NormaliseLegacyTrieNodes(dbb)
+	}
+	for _, d := range sh.DiffDumps(da, dbb) {
+		differs = true
+		class := sp.Backend + ":dbdump:" + sh.BucketName(d.Bucket)
+		if sp.Backend == "new" && onlyLeaves(&d) {
+			switch db.Bucket(d.Bucket) {
+			case db.ContractTrieStorage:
+				class = "new:dbdump:stale-storage-leaf"
+			case db.ContractTrieContract:
+				class = "new:dbdump:stale-contract-leaf"
+			case db.ClassTrie:
+				class = "new:dbdump:stale-class-leaf"
+			}
+		}
+		res.add(class, fmt.Sprintf("%s backend: raw database differs between the node that stored and reverted fork A (first) and the node that never saw it (second): %s; %s",
+			sp.Backend, d.String(), sp), false)
+		if verbose {
+			res.detail = append(res.detail, "dump  "+d.String())
+		}
+	}
+	return differs
+}
+
+// onlyLeaves: every differing key of the ContractTrieStorage bucket is a leaf node (trie2 leaves that
+// a delete under a binary node leaves behind; C03 finding new:head:slot:zeroed-slot-reads-stale-value).
+func onlyLeaves(d *sh.DumpDiff) bool {
+	for _, l := range [][]sh.KV{d.OnlyA, d.OnlyB, d.Changed} {
+		for _, e := range l {
+			if !sh.IsTrieLeafKey(e.K) {
+				return false
+			}
+		}
+	}
+	return true
+}
+
+// ---------- generator ----------
+type genOut struct {
+	sp     *Spec
+	labels []string
+}
+
+func genSpec(r *hx.RNG) *genOut {
+	u := sh.DefaultUniverse()
+	cfg := sh.DefaultGenConfig(u, false)
+	cfg.ZeroNoopPct = 0 // the no-op zero write is injected explicitly (known legacy defect) in a minority of blocks
+	g := sh.NewGen(r, u, cfg)
+	reg := sh.NewRegistry()
+	ecfg := sh.DefaultExtrasConfig()
+	out := &genOut{sp: &Spec{}}
+	mk := func(zeroNoopPct int) *sh.BlockSpec {
+		if r.Chance(7) {
+			spec := &sh.BlockSpec{Version: "0.14.0", Salt: uint64(r.Intn(4))}
+			out.labels = append(out.labels, "empty-block")
+			g.Push(spec)
+			return spec
+		}
+		spec, _ := g.NextStore(false)
+		out.labels = append(out.labels, g.Cur().Kinds(&spec.Diff)...)
+		ecfg.ZeroNoopPct = zeroNoopPct
+		out.labels = append(out.labels, sh.AddExtras(r, g, reg, ecfg, spec)...)
+		g.Push(spec)
+		return spec
+	}
+	nP, nA, nB := r.Intn(5), 1+r.Intn(4), r.Intn(5)
+	if r.Chance(25) { // single block stored and reverted
+		nA, nB = 1, 0
+		out.labels = append(out.labels, "shape:single-block")
+	}
+	if r.Chance(10) {
+		nP = 0 // the fork starts at genesis
+	}
+	for i := 0; i < nP; i++ {
+		out.sp.P = append(out.sp.P, mk(6))
+	}
+	regP := reg.Clone()
+	for i := 0; i < nA; i++ {
+		out.sp.A = append(out.sp.A, mk(13))
+	}
+	for i := 0; i < nA; i++ {
+		g.Pop()
+	}
+	reg = regP
+	for i := 0; i < nB; i++ {
+		out.sp.B = append(out.sp.B, mk(6))
+	}
+	out.labels = append(out.labels, fmt.Sprintf("prefix-%d", nP), fmt.Sprintf("fork-a-%d", nA), fmt.Sprintf("fork-b-%d", nB))
+	if nP == 0 {
+		out.labels = append(out.labels, "shape:genesis-revert")
+	}
+	return out
+}
+
+func nontrivial(o *genOut) bool {
+	if len(o.sp.A) >= 2 {
+		return true
+	}
+	for _, l := range o.labels {
+		switch l {
+		case "write-nonzero", "write-overwrite", "empty-block", "empty-diff":
+		default:
+			if !strings.HasPrefix(l, "prefix-") && !strings.HasPrefix(l, "fork-") && !strings.HasPrefix(l, "shape:") {
+				return true
+			}
+		}
+	}
+	return false
+}
+
+// ---------- shrinking ----------
+func shrink(ar *sh.Arena, or *hx.Oracle, sp *Spec, class string) *Spec {
+	budget := 300
+	fails := func(c *Spec) bool {
+		if len(c.A) == 0 || budget <= 0 {
+			return false
+		}
+		budget--
+		r := runSpec(ar, or, c, false).has(class)
+		if os.Getenv("C04_DEBUG") != "" {
+			fmt.Fprintf(os.Stderr, "shrink[%s] budget=%d %v: %s\n", class, budget, r, c)
+		}
+		return r
+	}
+	cur := sp.clone()
+	if !fails(cur) {
+		return sp
+	}
+	parts := func(s *Spec) []*[]*sh.BlockSpec { return []*[]*sh.BlockSpec{&s.B, &s.A, &s.P} }
+	for changed := true; changed; {
+		changed = false
+		// whole blocks, last first
+		for pi := 0; pi < 3; pi++ {
+			for i := len(*parts(cur)[pi]) - 1; i >= 0; i-- {
+				cand := cur.clone()
+				l := parts(cand)[pi]
+				*l = append((*l)[:i:i], (*l)[i+1:]...)
+				if fails(cand) {
+					cur, changed = cand, true
+				}
+			}
+		}
+		// extras and diff entries of every block
+		for pi := 0; pi < 3; pi++ {
+			for i := len(*parts(cur)[pi]) - 1; i >= 0; i-- {
+				try := func(edit func(b *sh.BlockSpec) bool) {
+					cand := cur.clone()
+					if !edit((*parts(cand)[pi])[i]) {
+						return
+					}
+					if fails(cand) {
+						cur, changed = cand, true
+					}
+				}
+				// everything but the diff at once, then whole entry lists, then single entries
+				try(func(b *sh.BlockSpec) bool {
+					ok := len(b.Txs)+len(b.L1)+len(b.Migrate)+len(b.DeclareV1) > 0 || b.Version == "0.14.1" || b.Salt != 0
+					b.Txs, b.L1, b.Migrate, b.DeclareV1, b.Version, b.Salt = nil, nil, nil, nil, "0.14.0", 0
+					return ok
+				})
+				try(func(b *sh.BlockSpec) bool { ok := len(b.Diff.Store) > 1; b.Diff.Store = nil; return ok })
+				try(func(b *sh.BlockSpec) bool { ok := len(b.Diff.Nonce) > 1; b.Diff.Nonce = nil; return ok })
+				try(func(b *sh.BlockSpec) bool { ok := len(b.Diff.Decl) > 1; b.Diff.Decl = nil; return ok })
+				try(func(b *sh.BlockSpec) bool { ok := len(b.Diff.Replace) > 1; b.Diff.Replace = nil; return ok })
+				try(func(b *sh.BlockSpec) bool { ok := len(b.Diff.Deploy) > 1; b.Diff.Deploy = nil; return ok })
+				try(func(b *sh.BlockSpec) bool { ok := len(b.Txs) > 0; b.Txs = nil; return ok })
+				try(func(b *sh.BlockSpec) bool { ok := len(b.L1) > 0; b.L1 = nil; return ok })
+				try(func(b *sh.BlockSpec) bool { ok := len(b.Migrate) > 0; b.Migrate = nil; return ok })
+				try(func(b *sh.BlockSpec) bool { ok := len(b.DeclareV1) > 0; b.DeclareV1 = nil; return ok })
+				try(func(b *sh.BlockSpec) bool { ok := b.Version == "0.14.1"; b.Version = "0.14.0"; return ok })
+				try(func(b *sh.BlockSpec) bool { ok := b.Salt != 0; b.Salt = 0; return ok })
+				for j := (*parts(cur)[pi])[i].Diff.Len() - 1; j >= 0; j-- {
+					try(func(b *sh.BlockSpec) bool {
+						if j >= b.Diff.Len() {
+							return false
+						}
+						b.Diff = *b.Diff.Without(j)
+						return true
+					})
+				}
+			}
+		}
+	}
+	return cur
+}
+
+var reported = map[string]bool{}
+
+func report(c *hx.Ctx, ar *sh.Arena, or *hx.Oracle, sp *Spec, f finding) {
+	if reported[f.class] {
+		return
+	}
+	reported[f.class] = true
+	small := shrink(ar, or, sp, f.class)
+	what := f.what
+	for _, g := range runSpec(ar, or, small, false).findings {
+		if g.class == f.class {
+			what = g.what
+		}
+	}
+	c.Violation(f.class, what, small, f.noInput)
+}
+
+func numWorkers() int {
+	w := runtime.GOMAXPROCS(0)
+	if w > 16 {
+		w = 16
+	}
+	return w
+}
+
+type job struct {
+	idx int
+	gen *genOut
+	res *result
+}
+
+func main() {
+	casesFlag := flag.Int("cases", 0, "number of generated fork experiments per backend (0 = tier default)")
+	profFlag := flag.String("cpuprofile", "", "write a CPU profile (development)")
+	c := hx.NewCtx("C04")
+	if *profFlag != "" {
+		f, err := os.Create(*profFlag)
+		hx.Must(err)
+		pprof.StartCPUProfile(f)
+	}
+	or := hx.StartOracle(c.OraclePath)
+	defer or.Close()
+	ar := sh.NewArena()
+
+	if c.ReplayIn != "" {
+		var sp Spec
+		c.LoadReplay(&sp)
+		if sp.Probe != "" {
+			runProbes(c, ar)
+			c.Count("probe "+sp.Probe, true)
+			c.Finish("replay of the optional probe " + sp.Probe)
+		}
+		res := runSpec(ar, or, &sp, true)
+		fmt.Printf("replay: %s\n  reverts attempted %d, stopped: %q, api answers compared %d, raw entries compared %d, model families compared %d\n",
+			&sp, res.reverts, res.stopped, res.queries, res.dbKeys, res.families)
+		for _, d := range res.detail {
+			fmt.Println("  " + d)
+		}
+		for _, f := range res.findings {
+			fmt.Printf("  finding %s: %s\n", f.class, f.what)
+			report(c, ar, or, &sp, f)
+		}
+		c.Count(sp.String(), true)
+		c.Finish("replay of one recorded fork experiment")
+	}
+
+	ncases := 1500
+	if c.Thorough() {
+		ncases *= 20
+	}
+	if *casesFlag > 0 {
+		ncases = *casesFlag
+	}
+	master := hx.NewRNG(c.Seed)
+	var jobs []*job
+	for i := 0; i < ncases; i++ {
+		sub := master.U64()
+		for _, backend := range []string{"new", "legacy"} {
+			g := genSpec(hx.NewRNG(sub)) // the same experiment on both backends
+			g.sp.Backend = backend
+			jobs = append(jobs, &job{idx: len(jobs), gen: g})
+		}
+	}
+	var wg sync.WaitGroup
+	next := make(chan *job, len(jobs))
+	for _, j := range jobs {
+		next <- j
+	}
+	close(next)
+	for w := 0; w < numWorkers(); w++ {
+		wg.Add(1)
+		go func() {
+			defer wg.Done()
+			wor := hx.StartOracle(c.OraclePath)
+			defer wor.Close()
+			war := sh.NewArena()
+			for j := range next {
+				j.res = runSpec(war, wor, j.gen.sp, false)
+			}
+		}()
+	}
+	wg.Wait()
+
+	// shrinking starts from the smallest experiment showing the class
+	size := func(sp *Spec) int {
+		n := 0
+		for _, l := range [][]*sh.BlockSpec{sp.P, sp.A, sp.B} {
+			for _, b := range l {
+				n += 3 + b.Diff.Len() + len(b.Txs) + len(b.L1) + len(b.DeclareV1) + len(b.Migrate)
+			}
+		}
+		return n
+	}
+	best := map[string]*job{}
+	for _, j := range jobs {
+		for _, f := range j.res.findings {
+			if b, ok := best[f.class]; !ok || size(j.gen.sp) < size(b.gen.sp) {
+				best[f.class] = j
+			}
+		}
+	}
+	var queries, dbKeys, families int
+	for _, j := range jobs {
+		queries += j.res.queries
+		dbKeys += j.res.dbKeys
+		families += j.res.families
+		c.Count(j.gen.sp.String(), nontrivial(j.gen))
+		c.Hist["backend-"+j.gen.sp.Backend]++
+		for _, l := range j.gen.labels {
+			c.Hist[l]++
+		}
+		switch {
+		case j.res.revertKnown:
+			c.Hist["outcome:revert-failed-known"]++
+		case j.res.stopped != "":
+			c.Hist["outcome:"+strings.ReplaceAll(j.res.stopped, " ", "-")]++
+		default:
+			c.Hist["outcome:revert-ok"]++
+		}
+		c.Hist["reverts-attempted"] += j.res.reverts
+		c.Hist["legacy-trie-records-zero-hash-trailer-stripped"] += j.res.normalised
+		if j.idx < 4 {
+			c.Sample(map[string]any{"experiment": j.gen.sp.String(), "reverts": j.res.reverts, "api_answers": j.res.queries, "raw_entries": j.res.dbKeys})
+		}
+		for _, f := range j.res.findings {
+			c.Hist["finding:"+f.class]++
+			b := best[f.class]
+			for _, g := range b.res.findings {
+				if g.class == f.class {
+					report(c, ar, or, b.gen.sp, g)
+				}
+			}
+		}
+	}
+	c.Extra["queries"] = queries
+	c.Extra["db_entries_compared"] = dbKeys
+	c.Extra["model_families_compared"] = families
+	c.Extra["cases"] = ncases
+	fams := append([]string{}, sh.ModelFamilyNames...)
+	sort.Strings(fams)
+	c.Extra["model_families"] = fams
+
+	if optionalProbes {
+		runProbes(c, ar)
+	}
+	pprof.StopCPUProfile()
+	c.Finish("fork experiments per state backend: prefix P (0..4 blocks), fork A (1..4 blocks) stored and reverted block by block, fork B (0..4 blocks); 25% single block stored+reverted, 10% forks from genesis; " +
+		"blocks carry deployments, replacements, nonces, writes (incl. zero-over-nonzero, same value; zero to an absent slot injected in 13% of fork-A blocks), Cairo0 and Sierra declarations, CASM migrations (0.14.1 blocks), " +
+		"invoke transactions with events, L1-handler transactions, system-contract writes, empty blocks; node A (P, A, reverts, B) is compared with node B (P, B) on every Reader query over all numbers / block / tx / L1-message hashes ever produced, " +
+		"the state readers, the event filter and the raw database; node A's op sequence runs through C04.Model (outcomes, legacy guard, 13 decoded index families); non-trivial = fork depth >= 2 or a feature beyond plain writes")
+}
+
+var _ = felt.Zero
+
+// ---------- optional probe: duplicate transaction hash ----------
+const optionalProbes = true
+
+// Block 1 and block 2 carry a transaction with the same hash (juno's Store does not check uniqueness).
+// After RevertHead of block 2 the hash lookups are compared with a node that never stored block 2.
+// Outside C04.Model (valid_next demands fresh transaction hashes), hence a separate probe.
+func runProbes(c *hx.Ctx, ar *sh.Arena) {
+	var notes []string
+	for _, newState := range []bool{true, false} {
+		backend := sh.BackendName(newState)
+		seq, na, nb := ar.NewNode(newState), ar.NewNode(newState), ar.NewNode(newState)
+		specs := []*sh.BlockSpec{
+			{Diff: sh.Diff{Deploy: []sh.AV{{A: "64", V: "a"}}}},
+			{Txs: [][]sh.Ev{{{From: "64", Keys: []string{"1"}}}}, TxSeed: 500},
+			{Txs: [][]sh.Ev{{{From: "64", Keys: []string{"2"}}}}, TxSeed: 500, Salt: 16},
+		}
+		var built []*sh.Built
+		note := ""
+		for i, s := range specs {
+			bt, err := seq.Build(s)
+			if err == nil {
+				err = na.Store(bt)
+			}
+			if err == nil && i < 2 {
+				err = nb.Store(bt)
+			}
+			if err != nil {
+				note = fmt.Sprintf("%s: block %d with the duplicate transaction is rejected: %v", backend, i, err)
+				break
+			}
+			built = append(built, bt)
+		}
+		if note == "" {
+			h1, h2 := built[1].Block.Transactions[0].Hash(), built[2].Block.Transactions[0].Hash()
+			if !h1.Equal(h2) {
+				note = backend + ": probe did not produce equal transaction hashes"
+			} else if err := na.BC.RevertHead(); err != nil {
+				note = fmt.Sprintf("%s: revert failed: %v", backend, err)
+			} else {
+				q := queryCtx(&Spec{P: specs[:2], A: specs[2:]}, built)
+				q.U = nil
+				d := sh.DiffFacts(sh.ObserveNode(na, q), sh.ObserveNode(nb, q))
+				note = fmt.Sprintf("%s: duplicate accepted, %d differing families after the revert", backend, len(d))
+				// Two blocks carrying the same transaction hash are not a valid Starknet chain (valid_next
+				// demands fresh hashes); the observation is recorded in the evidence and findings/C04.md and
+				// only turned into a violation when explicitly asked for.
+				if len(d) > 0 && os.Getenv("C04_PROBE_DUPLICATE_TX") != "1" {
+					note += fmt.Sprintf("; observed (not reported) revert:duplicate-tx-hash-lookup-lost: %s %s answers %s, on a node that never stored block 2 %s",
+						d[0].A.Family, d[0].A.Key, d[0].A.Val, d[0].B.Val)
+				} else if len(d) > 0 {
+					c.Violation("revert:duplicate-tx-hash-lookup-lost",
+						fmt.Sprintf("%s backend: blocks 1 and 2 both contain transaction %s; after RevertHead of block 2 %s %s answers %s, on a node that never stored block 2 %s",
+							backend, sh.Hex(h1), d[0].A.Family, d[0].A.Key, d[0].A.Val, d[0].B.Val),
+						map[string]any{"probe": "duplicate-tx-hash", "backend": backend, "blocks": specs}, false)
+				}
+			}
+		}
+		notes = append(notes, note)
+		seq.Close()
+		na.Close()
+		nb.Close()
+	}
+	c.Extra["probe_duplicate_tx_hash"] = notes
+}
